@@ -127,6 +127,10 @@ def check_case(lines, obs, want=("C11", "C12")):
             wide = lay.get("wide")
             wide = None if wide in (None, "None") else wide
             # ---------- where the property has no opinion
+            if kind == "U" and lay.get("index") == "none":
+                # leftover row labels (not a dimension, not calendar years): they carry no information
+                if rows and all(isinstance(r[0], Fraction) and r[0] < 1700 for r in rows):
+                    cols, rows, kind = cols[1:], [r[1:] for r in rows], "R"
             if kind == "U":
                 idxvals = [r[0] for r in rows]
                 if not (idxvals and all(isinstance(v, Fraction) and 1700 <= v <= 2300 for v in idxvals)):
